@@ -97,6 +97,13 @@ CHECKS = {
         note="Bounded liveness: a budget overrun is taken as divergence (margin reported). The nullable-body-under-*/+ divergence is a recorded known finding.",
         design="4 C06",
     ),
+    "C14": dict(
+        category="model_checking",
+        technique="bounded-exhaustive enumeration of spec texts (all line sequences up to a length bound over a lexer-oriented line alphabet, plus shipped specs), differential comparison of the two front ends on every text",
+        text="The C++ front end is rebuilt from /repo's current cpp_parser sources (cached by source hash). Every text of <= 2 lines over a 20-line alphabet and <= 3 lines over a core alphabet (thorough: 3 lines over all, 4 over a core), with and without final newline - rule lines, rules continued over open brackets, where lines, def headers, bodies at indent 1/2 with spaces or tabs, blank and comment lines, f-strings, generators, unbalanced brackets, dedents to unseen levels - plus the shipped .fan files go through both front ends in one process; parse trees (rule names, token types and texts) and extracted Python code must be identical, or both must reject with the same error class.",
+        note="Trusted: the comparison harness; INDENT/DEDENT token text is ignored (lexer-base artefact nothing downstream reads). Built with cmake/g++ -O2 rather than the project's LTO flags.",
+        design="4 C14",
+    ),
     "C16": dict(
         category="model_checking",
         technique="explicit-state reachability over trees under the search operators (all random resolutions) and deviation-bounded loop exploration on specs whose generator functions log every call",
